@@ -433,6 +433,24 @@ func c02VerifySuccess(c *Ctx) {
 			ok1, m1 := everyDisjunctHas(d, []string{".Equal(b.Header.Hash)"}, []string{"UnverifiableRange"})
 			ok2, m2 := everyDisjunctHas(d, []string{"^!", "VerifyTransactions(", "!= nil"}, []string{"UnverifiableRange"})
 			ok3, m3 := everyDisjunctHas(d, []string{"^!", "len(b.Transactions) != len(b.Receipts)"})
+			if !ok3 {
+				// the count/hash agreement may be checked by a same-package validation helper that is handed both lists and whose
+				// error rejects the block: then the helper's own success returns carry the length test
+				for _, h := range c02ReceiptCheckers(p, f, d) {
+					okh := true
+					for _, hr := range returnsOf(h) {
+						if len(hr.Results) != 1 || !isNilConst(hr.Results[0]) {
+							continue
+						}
+						if o, _ := everyDisjunctHas(p.mustHoldAt(hr.Ret), []string{"^!", "len(", "!= len("}, []string{"len(", "== len("}); !o {
+							okh = false
+						}
+					}
+					if okh {
+						ok3, m3 = true, ""
+					}
+				}
+			}
 			c.check(ok1, "verify-success", "VerifyBlockHash success ⇒ hash equal (or unverifiable range)", p.Pos(posOf(ret.Ret, f)), "commitments are returned only if the recomputed hash equals the header's", "VerifyBlockHash can succeed without the hash comparison: "+m1)
 			c.check(ok2, "verify-success", "VerifyBlockHash success ⇒ transactions verified (or unverifiable range)", p.Pos(posOf(ret.Ret, f)), "transaction hashes verified first", "VerifyBlockHash can succeed without VerifyTransactions: "+m2)
 			c.check(ok3, "verify-success", "VerifyBlockHash success ⇒ len(txs) == len(receipts)", p.Pos(posOf(ret.Ret, f)), "length check", "VerifyBlockHash can succeed with mismatching transaction/receipt counts: "+m3)
@@ -440,7 +458,15 @@ func c02VerifySuccess(c *Ctx) {
 		if n == 0 {
 			c.und("verify-success", "VerifyBlockHash", p.Pos(fnPos(f)), "success return not found")
 		}
-		c.check(ifErrorOnFailure(p, f, false, "Hash().Equal(", "Receipts[", ".TransactionHash"), "verify-success", "VerifyBlockHash: tx hash = receipt's tx hash per index", p.Pos(fnPos(f)), "mismatch returns an error", "the per-index transaction/receipt hash comparison no longer rejects the block")
+		perIndex := ifErrorOnFailure(p, f, false, "Hash().Equal(", "Receipts[", ".TransactionHash")
+		if !perIndex {
+			for _, h := range c02ReceiptCheckers(p, f, nil) {
+				if ifErrorOnFailure(p, h, false, "Hash().Equal(", "eceipts[", ".TransactionHash") {
+					perIndex = true
+				}
+			}
+		}
+		c.check(perIndex, "verify-success", "VerifyBlockHash: tx hash = receipt's tx hash per index", p.Pos(fnPos(f)), "mismatch returns an error", "the per-index transaction/receipt hash comparison no longer rejects the block")
 	} else {
 		c.und("verify-success", "VerifyBlockHash", "", "anchor not found")
 	}
@@ -856,7 +882,7 @@ func c02OverrideOnlyWhenAbsent(c *Ctx) {
 			ok = true
 		} else {
 			d := p.mustHoldDeep(ds)
-			if o, _ := everyDisjunctHas(d, []string{"SequencerAddress == nil"}); o {
+			if o, _ := everyDisjunctHas(d, []string{"SequencerAddress == nil"}, []string{"^!", "SequencerAddress != nil"}); o {
 				ok = true
 			} else if ph, isPhi := a.(*ssa.Phi); isPhi {
 				// every non-nil arm comes from a predecessor that is reached only under SequencerAddress == nil
@@ -867,8 +893,20 @@ func c02OverrideOnlyWhenAbsent(c *Ctx) {
 					}
 					pred := ph.Block().Preds[i]
 					dd := p.mustHoldAt(pred.Instrs[len(pred.Instrs)-1])
-					if o, m := everyDisjunctHas(dd, []string{"SequencerAddress == nil"}); !o {
+					if o, m := everyDisjunctHas(dd, []string{"SequencerAddress == nil"}, []string{"^!", "SequencerAddress != nil"}); !o {
 						ok, why = false, m
+					}
+				}
+			} else if call, isCall := a.(*ssa.Call); isCall && call.Call.StaticCallee() != nil && len(call.Call.StaticCallee().Blocks) > 0 && pkgRelOf(call.Call.StaticCallee()) == "core" {
+				// the override is chosen by a same-package helper: each of its returns is nil or lies under SequencerAddress == nil
+				h := call.Call.StaticCallee()
+				ok = true
+				for _, r := range returnsOf(h) {
+					if len(r.Results) != 1 || isNilConst(r.Results[0]) {
+						continue
+					}
+					if o, m := everyDisjunctHas(p.mustHoldAt(r.Ret), []string{"SequencerAddress == nil"}, []string{"^!", "SequencerAddress != nil"}); !o {
+						ok, why = false, "helper "+h.Name()+": "+m
 					}
 				}
 			} else {
@@ -880,4 +918,43 @@ func c02OverrideOnlyWhenAbsent(c *Ctx) {
 	if n == 0 {
 		c.und("override-only-when-absent", "VerifyBlockHash", p.Pos(fnPos(f)), "no call of core.BlockHash found")
 	}
+}
+
+// c02ReceiptCheckers: same-package helpers that VerifyBlockHash hands both b.Transactions and b.Receipts, whose error result
+// is returned as the verdict (the call dominates every success return and its error leads to an error return).
+func c02ReceiptCheckers(p *Prog, f *ssa.Function, _ dnf) []*ssa.Function {
+	var out []*ssa.Function
+	for _, s := range sitesOf(f) {
+		if s.Callee == nil || pkgRelOf(s.Callee) != pkgRelOf(f) || len(s.Callee.Blocks) == 0 {
+			continue
+		}
+		hasTx, hasRc := false, false
+		for _, a := range s.Args() {
+			t := term(a)
+			if strings.HasSuffix(t, ".Transactions") {
+				hasTx = true
+			}
+			if strings.HasSuffix(t, ".Receipts") {
+				hasRc = true
+			}
+		}
+		if !hasTx || !hasRc {
+			continue
+		}
+		// every success return of f lies under `helper(...) == nil`
+		okAll := true
+		ct := "core." + s.Callee.Name() + "("
+		for _, r := range returnsOf(f) {
+			if len(r.Results) < 2 || !isNilConst(r.Results[len(r.Results)-1]) {
+				continue
+			}
+			if o, _ := everyDisjunctHas(p.mustHoldAt(r.Ret), []string{"^!", ct, "!= nil"}, []string{ct, "== nil"}); !o {
+				okAll = false
+			}
+		}
+		if okAll {
+			out = append(out, s.Callee)
+		}
+	}
+	return out
 }
